@@ -48,6 +48,7 @@ ClusterTokens(d) ==
 CmdTokens(d) == UNION {{d.cmds[c].name} \cup SeqToSet(d.cmds[c].aliases) : c \in 2..Len(d.cmds)}
 OddTokens == {E, <<DASH>>, <<DASH, DASH>>, <<DASH, DASH, DASH, 120>>, <<119>>}              \* "" - -- ---x w
 UnknownTokens == {<<DASH, 113>>, <<DASH, DASH, 117, 110, 107>>, <<DASH, DASH, 117, 110, 107, EQ, 118>>}     \* -q --unk --unk=v
+FmtTokens == {<<DASH, DASH, 37, 100>>, <<37, 115>>}                                                        \* --%d %s : echoed in messages, never a format
 NearTokens(d) ==        \* near misses of declared long names: proper prefix, case flip of the first letter, name without namespaces
   UNION {LET nl == NsLong(d, d.opts[o]) IN
          (IF Len(nl) > 1 THEN {<<DASH, DASH>> \o Take(nl, Len(nl) - 1)} ELSE {})
@@ -64,6 +65,7 @@ Alphabet(d) ==
   \cup (IF "unknown" \in Policy THEN UnknownTokens ELSE {})
   \cup (IF "near" \in Policy THEN NearTokens(d) ELSE {})
   \cup (IF "help" \in Policy THEN HelpTokens ELSE {})
+  \cup (IF "fmt" \in Policy THEN FmtTokens ELSE {})
 
 Vectors(d) == UNION {[1..n -> Alphabet(d)] : n \in 0..MaxLen}
 
